@@ -68,9 +68,15 @@ def histories(tier):
 
 def replay_one(args):
     hid, h, base = args
+    # the wrapper source names the input headers by path (`#include "<path>"`, verbatim): a share of the histories
+    # lives in directories whose names need care (non-ASCII, blank, backslash, '#')
+    special = {1: "gr\u00f6\u00dfe dir", 4: "back\\slash#d"}.get(hid % 6)
     d = os.path.join(base, "h%04d" % hid)
     shutil.rmtree(d, ignore_errors=True)
     os.makedirs(d)
+    if special:
+        d = os.path.join(d, special)
+        os.makedirs(d)
     kinds = {n: h["kinds"][n - 1] for n in h["fns"]}
     wrap = os.path.join(d, "wrap")
     obs = []
